@@ -8,107 +8,113 @@ HOME_CLEAN = "/verif/tools/baseline_off.sh"
 CHECKS = {
  "C07": ("exploration",
          "runtime monitor: generated pointers/mutants/random bytes through the real encoder+decoder, post-condition oracle from an independent spec formatter",
-         "Held on >=1M (quick) / 40M (thorough) seeded inputs covering every mutation operator in both accepted and rejected outcomes; panics are caught per input. Exploration is the right level: the domain is byte strings, the oracle is a total function of input and output.",
+         "Held on {q} (quick) / {t} (thorough) evaluations, seed 1: seeded inputs (valid pointers with 0-4 extensions, every mutation operator, random bytes) through the real decoder/encoder in both accepted and rejected outcomes, hostile io.Reader delivery (1-byte chunks, early errors), file delivery (regular file, symlink, FIFO), and independence of successive decode results; panics are caught per input. Exploration is the right level: the domain is byte strings, the oracle is a total function of input and output.",
          "Trusts harness/ptrspec as the transcription of docs/spec.md; valid pointers are < 1024 bytes with ascending distinct extension priorities.",
          "DESIGN.md §5 C07"),
  "C06": ("fault_enumeration",
          "runtime monitor: real TransferQueue under -race with scripted batch server + scripted adapter, seeded yields; boundary-history oracle (termination by quiescence, conservation, delivery counts) + hooked pending counter",
-         "Held on 432 (quick) / 6480 (thorough) seeded fault scripts over 18 fault themes incl. every single-fault kind named in the property, with GOMAXPROCS 1/2/4/16 and seeded yields; child process per 54 cases so a panic is attributed to its case. Fault enumeration by themes is the right level: the property quantifies over server/adapter behaviours and schedules.",
+         "Held on {q} (quick) / {t} (thorough) evaluations, seed 1: seeded fault scripts over 24 themes (21 with a scripted fake adapter incl. every single-fault kind named in the property, lost/truncated local upload files for one/some/every object of a batch; 3 with the built-in basic adapter doing real HTTP transfers), GOMAXPROCS 1/2/4/16 and seeded yields at hook points, under -race; a child process per slice of cases so a panic is attributed to its case. Fault enumeration by themes is the right level: the property quantifies over server/adapter behaviours and schedules.",
          "Schedules are sampled (race detector + yields), not enumerated. Hang verdict needs 20 s of logical quiescence. Fake adapter stands for any adapter behaviour; the real adapters are exercised by C02.",
          "DESIGN.md §5 C06"),
  "C15": ("fault_enumeration",
          "runtime monitor: same harness as C06; oracle over adapter attempt record and hook events (attempt counts, overlap, sound lower bounds for Retry-After, logged computed back-off values, expired actions)",
-         "Held on 320 (quick) / 4000 (thorough) seeded failure scripts x maxretries {1,2,3,8} x maxretrydelay {0,1,default} x concurrency 1-8. Lower bounds on waits are measured from stamps taken before the answer is released (sound under load); upper bounds are judged on the delay value the code computed (hook), never on elapsed time.",
-         "Back-off sleeps are scaled by 0.01 through the verif hook (the unscaled value is what is logged and judged); actions expiring within 5 s are exercised but not judged.",
+         "Held on {q} (quick) / {t} (thorough) evaluations, seed 1: seeded failure scripts x maxretries {1,2,3,8} x maxretrydelay {0,1,default} x concurrency 1-8, plus the themes deferred-plus-backoff, transfer-deferred-then-batch-deferred and action-expires-while-queued (built-in adapter, server-side expiry stamps). Lower bounds on waits are measured from stamps taken before the answer is released (sound under load); upper bounds are judged on the delay value the code computed (hook); the two elapsed-time clauses are confirmed by re-running the case twice.",
+         "Back-off sleeps are scaled by 0.01 through the verif hook (the unscaled value is what is logged and judged); actions expiring within 5 s are exercised but not judged; the expiry clause fires only for a request arriving after the advertised expiry (a correct client stops 5 s earlier).",
          "DESIGN.md §5 C15"),
  "C03": ("exploration",
          "runtime monitor: generated histories pushed through the real pre-push hook / git lfs push against an in-driver fake LFS server (or file:// standalone remote); brute-force reference model over plain git plumbing vs server store",
-         "Held on 40 (quick) / 400 (thorough) seeded histories x 4-8 push steps each (branch/--all/--tags/forced/deleted refs/second clone/lfs push/missing-object clause) x batch sizes x transports; after every successful step every pointer of every commit reachable on the remote is looked up in the server store (SHA-256 checked).",
+         "Held on {q} (quick) / {t} (thorough) evaluations, seed 1: seeded histories x 4-8 push steps each (branch/--all/--tags/forced/deleted refs/delete+update in one push/second clone/two remotes/lfs push of one or several refs/missing-object clause with and without allowincompletepush and a refused upload/stale tracking ref with server-side garbage collection/re-pointed remote) x batch sizes x {http, file:// standalone} x eight transient-fault modes (PUT 503/reset, batch 429, exhausted object in a failed batch, lost upload + verify, expired upload action); after every successful step every pointer of every commit reachable on the remote is looked up in the server store (SHA-256 checked).",
          "Family-a invariant assumes the fake server never loses objects. Git 2.39.5. The re-pointed-remote scenario is a recorded known finding (known_findings.txt).",
          "DESIGN.md §5 C03"),
  "C17": ("exploration",
          "runtime monitor: a `git` shim records argv+stdin of every `git credential` exchange; generated credential maps through the real creds helper in-process plus end-to-end runs of the git-lfs binary against a raw TCP server; oracle = multiset equality of protocol lines / refusal with no process started",
-         "Held on 24k (quick) / 1M (thorough) generated credential maps (4k / 40k spawning real exchanges) plus 56 / 1500 end-to-end runs with percent-encoded URL parts and raw WWW-Authenticate headers.",
+         "Held on {q} (quick) / {t} (thorough) evaluations, seed 1: generated credential maps through the real creds helper in-process (a `git` shim records argv+stdin of every exchange) plus end-to-end runs of the binary with percent-encoded URL parts, raw WWW-Authenticate headers and askpass programs (GIT_ASKPASS / core.askpass / SSH_ASKPASS) x 19 scope shapes of credential.protectProtocol.",
          "Keys are the protocol's fixed attribute names (values are adversarial). Header bytes that Go's HTTP client itself rejects never reach git-lfs and are decided by the in-process part.",
          "DESIGN.md §5 C17"),
  "C01": ("exploration",
          "runtime monitor: generated contents through one-shot filters fed by a drain-aware chunked pipe writer, an independent filter-process client, git add/checkout/hash-object and the merge driver; byte-equality + SHA-256 oracle, pointer parsed by an independent spec parser",
-         "Held on ~300 (quick) / ~3000 (thorough) seeded cases covering every size class x mode and all (size, mode, working-tree state) triples around the 1024-byte cut-off, with and without a reversible pointer extension; merged pointers shorter/equal/longer than the overwritten one.",
-         "Inputs are non-pointers by construction (pointer pass-through is C08). Pipe chunking waits until the child drained the pipe, which is a legal OS schedule.",
+         "Held on {q} (quick) / {t} (thorough) evaluations, seed 1: seeded cases covering every size class x content class (incl. pointer look-alikes and 14 kinds of complete pointer-shaped texts that are not pointers) x mode (one-shot, filter-process, git add/checkout, hash-object, merge driver) x working-tree state, with no / one / two chained pointer extensions; extension programs that fail or change between clean and smudge; GIT_LFS_PROGRESS targets; RLIMIT_FSIZE write faults; stored object changing length between clean and smudge.",
+         "Inputs are non-pointers by construction (pointer pass-through is C08). Pipe chunking waits until the child drained the pipe, which is a legal OS schedule. Three chained extensions are refused by the pinned tree (counted, not judged). Store damage that keeps the length is not generated (smudge does not re-hash; C02/C13 cover store integrity).",
          "DESIGN.md §5 C01"),
  "C19": ("exploration",
          "runtime monitor: track/untrack sequences on generated names/patterns; oracle = Git's own check-attr compared with a twin repository holding the C-quoted pattern, attribute-table frame check, byte idempotence",
-         "Held on 176 (quick) / 5000 (thorough) seeded sequences (length 1-8) over names with spaces, tabs, quotes, #, !, glob characters, backslashes, non-ASCII, nested directories, pre-existing .gitattributes variants; 12 recorded known findings are reproduced and attributed by trigger coordinates.",
+         "Held on {q} (quick) / {t} (thorough) evaluations, seed 1: seeded sequences (length 1-8) over names with spaces, tabs, quotes, #, !, glob characters, backslashes, non-ASCII, nested directories, pre-existing .gitattributes variants, start directories reached through symlinks, explicit work trees (GIT_DIR + GIT_WORK_TREE, --work-tree, core.worktree), several arguments per command, `./x` spellings; recorded known findings are reproduced and attributed by trigger coordinates.",
          "Git 2.39.5 is the authority on attribute matching; `--filename N` without slash is allowed to match d/**/N (Git's basename rule). Pattern mode is generated without backslashes.",
          "DESIGN.md §5 C19"),
  "C20": ("exploration",
          "runtime monitor: install/update/uninstall (and implicit hook installers) sequences over generated hook/config pre-states; oracle = before/after snapshots of hook bytes/modes and `git config --show-origin` per scope against a data table of every hook text git-lfs ever generated",
-         "Held on 120 (quick) / 4080 (thorough) seeded sequences of length 1-6 over 23 hook content classes x 4 hooks x 6 config stores x 5 filter value classes x core.hooksPath forms x worktree layouts.",
+         "Held on {q} (quick) / {t} (thorough) evaluations, seed 1: seeded sequences of length 1-6 over 23 hook content classes x 4 hooks x 6 config stores (incl. values set in included files) x 5 filter value classes x core.hooksPath forms x worktree layouts and scopes, plus errno injection (strace -P) on hook and config writes.",
          "A custom global value living only in $XDG_CONFIG_HOME/git/config while ~/.gitconfig exists is exercised but not judged (Git 2.39 `config --global` does not read it; outside the quantifier's scope list). uninstall removing the filter.lfs section is its documented purpose.",
          "DESIGN.md §5 C20"),
  "C02": ("fault_enumeration",
          "runtime monitor: real transfer queue with the real basic-download and custom-transfer adapters (in-process, -race) against a scripted fake server / scripted transfer agent; SHA-256 of the final path vs reported outcome; two concurrent race-instrumented fetch processes + observers checked with porcupine against a write-once register",
-         "Held on the full table of (.part state x first GET answer class) pairs (190) and agent misbehaviours (20) plus 160 (quick) / 3000 (thorough) seeded fault scripts, and 6 / 60 two-process histories (porcupine, nondeterministic write-once register, 60 s checker timeout => inconclusive).",
-         "The ssh (git-lfs-transfer) adapter is not driven: no fake ssh peer was built (see DESIGN.md limits); tus is out of the property's scope. Success = delivered on the queue's Watch channel.",
+         "Held on {q} (quick) / {t} (thorough) evaluations, seed 1: Part A: full table of (.part state x first GET answer class) pairs and agent misbehaviours plus seeded fault scripts over 22 GET fault classes (in-process, -race); Part B: two-process histories (porcupine, nondeterministic write-once register, 60 s checker timeout => inconclusive); Part C: the pure-SSH adapter against a scripted fake ssh peer (24 get-object answer classes, batch answer classes); Part D: the built-in standalone file agent with damaged sources; Part E: store on another filesystem with injected write errors.",
+         "tus is out of the property's scope. Success = delivered on the queue's Watch channel (in-process) / exit 0 (process level). The two-process part samples schedules.",
          "DESIGN.md §5 C02"),
  "C08": ("exploration",
          "runtime monitor: inputs classified by construction (pointers beyond dispute / content beyond dispute) through one-shot filters fed by drain-aware chunked pipes, an independent filter-process client, and Git-level skip-smudge checkout + add/stash/commit; byte-equality, object-count and index-blob-id oracles",
-         "Held on 266 (quick) / ~4850 (thorough) seeded cases over 8 confirmed class-P spellings, pointer extensions up to and beyond 1024 bytes, all chunk plans incl. a first write ending exactly at / in the middle of the pointer text, packet sizes 1..65516, with and without a configured LFS extension, plus 8 Git-level scenarios.",
+         "Held on {q} (quick) / {t} (thorough) evaluations, seed 1: seeded cases over confirmed class-P spellings, pointer extensions up to and beyond 1024 bytes, class-N contents incl. complete malformed pointer texts, all chunk plans incl. a first write ending exactly at / in the middle of the pointer text, packet sizes 1..65516, with and without a configured LFS extension, reference-store coordinate, spool-area faults and GIT_LFS_PROGRESS targets for the pass-through, object-SET comparison around every clean, plus Git-level scenarios (skip-smudge checkout, add/stash/commit, delay-capable checkout of non-pointer blobs of 1 B - 300 kB).",
          "Debatable inputs (pointer + trailing white space < 1024, unknown sorted keys) are exercised but not judged (they belong to C07). smudge --skip re-encoding non-canonical pointers is observed, not judged.",
          "DESIGN.md §5 C08"),
  "C09": ("fault_enumeration",
          "runtime monitor: SIGKILL injected at every discovered (verif crash point, scenario-wide ordinal), at enumerated/sampled N-th write/rename/link/unlink/openat syscalls of git-lfs (strace inject) and at the first syscalls touching each known store path (strace -P); storage oracle + re-run convergence; write-discipline trace specification over strace logs of uninterrupted runs",
-         "Held on 5 (quick) / 9 (thorough) scenarios: ~160-240 delivered hook kills + ~100 syscall kills (quick), all discovered points up to 400 per scenario + 600 path-directed kills (thorough). After every kill every file under lfs/objects hashes to its name, leftovers are confined to tmp/incomplete/bad, the re-run exits like the uninterrupted run and ends in the golden object/bad sets.",
+         "Held on {q} (quick) / {t} (thorough) evaluations, seed 1: scenarios {git add via filter-process, one-shot clean, fetch with resume parts (a third / one byte short / complete / over-long / other bytes; server honouring or ignoring Range), pull, checkout, migrate import, fsck repair, prune, reference store on the same / another filesystem, standalone custom transfer agent}: one SIGKILL per discovered (crash point, scenario-wide ordinal) up to a cap, strace-injected SIGKILL at N-th write/rename/link/unlink/openat, write-discipline trace check on uninterrupted runs. After every kill every file under lfs/objects hashes to its name, leftovers are confined to tmp/incomplete/bad (nothing foreign anywhere below the Git directory), the re-run exits like the uninterrupted run and ends in the golden object/bad sets.",
          "SIGKILL only (no power loss). Between hooked points the strace sweep samples at syscall granularity (when=N counts per thread). For commands that write working-tree files an extra self-consistent object after the re-run (Git cleaning a truncated work file) is tolerated and counted.",
          "DESIGN.md §5 C09"),
  "C12": ("exploration",
          "runtime monitor: migrate import/export on generated histories; oracle = structural commit correspondence + resolved-content/mode equality + representation-change selection check + ref/tag retargeting + Git's own check-attr, all over plain git plumbing and an independent pointer parser",
-         "Held on 36 (quick) / 240 (thorough) generated repositories over 12 migrate modes (include/exclude, --above, --everything, include-ref/exclude-ref, --fixup, --no-rewrite, export, export-after-import round trip) with merges incl. octopus, orphan branches, annotated/lightweight/nested tags, symlinks, executables, nested .gitattributes, raw commit encodings; 10 recorded known findings are reproduced and attributed by trigger.",
+         "Held on {q} (quick) / {t} (thorough) evaluations, seed 1: generated repositories over 12 migrate modes (include/exclude, --above, --everything, include-ref/exclude-ref, --fixup, --no-rewrite, export, export-after-import round trip) with merges incl. octopus, orphan branches, annotated/lightweight/nested tags, symlinks, executables, nested .gitattributes, raw commit encodings, histories that already use LFS midway, unusual commit date layouts, lfs.fetchinclude/fetchexclude set (must not matter; migrate info differential); recorded known findings are reproduced and attributed by trigger.",
          "Own matcher restricted to four unambiguous pattern forms; annotated-tag messages differing only in the final newline are counted, not judged, unless the tag was not selected; an --exclude pattern that un-tracks an existing LFS file is observed only.",
          "DESIGN.md §5 C12"),
  "C04": ("exploration",
          "runtime monitor: generated source repositories pushed to a fake LFS server, then seeded consumer scenarios (clone, skip-smudge clone + fetch/pull/checkout, include/exclude, reference store, pre-seeded objects, edited/deleted/replaced/read-only work files); reference model + own gitignore matcher cross-checked against git check-ignore; pre/post SHA-256 snapshots of every work file and object",
-         "Held on 96 (quick) / 2400 (thorough) scenarios: every selected pointer path has a hash-valid object and (clone/pull/checkout) the original bytes, excluded/skipped paths stay the recorded pointer, and pull/checkout never touch a work file whose bytes were not the recorded pointer.",
+         "Held on {q} (quick) / {t} (thorough) evaluations, seed 1: scenarios: clone, skip-smudge clone + fetch/pull/checkout in many option shapes (--all, --recent, --refetch, several refs, --dry-run, --json, checkout --to), include/exclude, reference store, pre-seeded objects, edited/deleted/replaced/read-only work files, wide trees with duplicated content across batches, download fault modes incl. an exhausted object in a failed batch call; every selected pointer path has a hash-valid object and (clone/pull/checkout) the original bytes, excluded/skipped paths stay the recorded pointer, and pull/checkout never touch a work file whose bytes were not the recorded pointer.",
          "Selection follows gitignore semantics for 11 generated pattern forms only; a deleted work file may be recreated; git lfs checkout of an object that is only in a reference store is not judged; driver runs as root (read-only bit cannot block writes).",
          "DESIGN.md §5 C04"),
  "C13": ("exploration",
          "runtime monitor: fsck runs over generated repositories with seeded object corruption (deletion, truncation, extension, bit flip, replacement) and non-pointer blobs under tracked patterns; oracle = reference model over plain git plumbing, Git's check-attr on a temporary index, own SHA-256/inode snapshots of the store",
-         "Held on 960 (quick) / 12000 (thorough) fsck runs over {no argument, commit, range} x {default, --objects, --pointers} x {dry-run, real}: exit status, named oids/paths, byte-identical move to lfs/bad, intact objects untouched (bytes and inode), dry-run changes nothing; 3 recorded known findings attributed by trigger.",
+         "Held on {q} (quick) / {t} (thorough) evaluations, seed 1: fsck runs over {no argument, commit, range} x {default, --objects, --pointers} x {dry-run, real} on generated repositories with seeded object corruption and planted pointer problems (11 kinds x file mode 100644/100755, nested .gitattributes, .gitattributes >= 1024 bytes, fetchinclude/fetchexclude set, repeated repair rounds): exit status, named oids/paths, byte-identical move to lfs/bad, intact objects untouched (bytes and inode), dry-run changes nothing; recorded known findings attributed by trigger.",
          "Range semantics use the weakest reading; oids named only by non-canonical pointer text, objects reached through both excluded and non-excluded paths, and index-only pointer problems are not judged.",
          "DESIGN.md §5 C13"),
  "C10": ("fault_enumeration",
          "runtime monitor: six in-driver listeners (two origins on 127.0.0.1 as http and https, one on 127.0.0.2, `localhost` aliases) with scripted redirect graphs and 401 sequences; every credential any source can supply (helper, netrc, URL userinfo, askpass, cache, extraheader, ssh authenticate, batch-issued action headers) encodes the origin it was issued for; per-request equality oracle, https->http refusal, constant hop cut-off; in-process lfsapi.Client/tq volume plus the real binary",
-         "Held on 314 (quick) / 8064 (thorough) cases: ~2500 received requests, ~2100 authenticated ones checked per quick run over redirect depth 0-4 and loops, statuses 301/302/303/307/308, nine Location forms, six hop relations, nine credential sources; observed cut-off = 3 requests per walk, identical on every loop.",
+         "Held on {q} (quick) / {t} (thorough) evaluations, seed 1: cases over redirect depth 0-4 and loops, statuses 301/302/303/307/308, Location forms (absolute, scheme-relative, path-absolute, relative, empty, missing, malformed) x spellings (scheme/host case, default ports written or left out on an origin bound to :80/:443, trailing dot, userinfo, raw white space), hop relations {same origin, other port, other host, other host name, scheme up, scheme down}, nine credential sources, 401 scripts; in-process lfsapi.Client/tq volume plus the real binary; observed cut-off = 3 requests per walk, identical on every loop.",
          "netrc credentials are keyed by host name only (format has no scheme/port); multistage helpers are injected in-process (git 2.39.5 drops authtype/state); suffix-related host names cannot be built without DNS.",
          "DESIGN.md §5 C10"),
  "C05": ("exploration",
          "runtime monitor: prune runs on generated repository states (explicit commit dates far from every window edge, stashes of four shapes, extra worktrees, staged files, detached HEAD, partially pushed branches, tag-only commits) under attribute spellings and ambient Git configurations; store diff vs a deliberately weak must-retain lower bound computed with plain git plumbing; --verify-remote vs the fake server's store; --dry-run",
-         "Held on ~144 (quick) / ~1600 (thorough) prune runs (plain and through git lfs fetch --prune) over 18 / 198 repositories, incl. runs on repositories damaged after the oracle was computed (unreadable stash / unpushed / HEAD-ancestor commits or trees, dangling ref: a scan that cannot complete gives prune no licence to delete) x linked-worktree states {present, staged file, detached, directory removed (prunable), removed+locked, removed+git worktree prune} x flags {--recent, --force, --verify-remote, --verify-unreachable, --when-unverified, --dry-run} x windows {0,1,3,7} x fetchexclude x 6 attribute spellings x 10 ambient configurations x cwd kinds. Every deleted object is checked against the must-retain clauses (checkout, index, stash additions, recent refs, recent previous versions, unpushed) and, with verification, against the server.",
+         "Held on {q} (quick) / {t} (thorough) evaluations, seed 1: prune runs (plain and through git lfs fetch --prune) over generated repository states (explicit commit dates far from every window edge, stashes of four shapes, linked worktrees {present, staged file, detached, directory removed, removed+locked, removed+pruned}, index states {staged then edited/deleted/replaced/stat-dirty, intent-to-add}, partially pushed branches, tag-only commits) incl. repositories damaged after the oracle was computed (a scan that cannot complete gives prune no licence to delete) x flags {--recent, --force, --verify-remote, --verify-unreachable, --when-unverified, --dry-run} and their config equivalents x windows {0,1,3,7} x fetchexclude/fetchinclude.",
          "must-retain is a lower bound (prune keeping more is never flagged): stashes count for what they add to their base commit, commits reachable only from a detached HEAD are not demanded, recent previous versions only for pointer-to-pointer replacements by non-merge commits. Commit ages {0.5,1.5,2.5,5,9,12,30} days keep >= 12 h from every window sum.",
          "DESIGN.md §5 C05"),
  "C14": ("exploration",
          "runtime monitor: generated request programs (Git's client grammar, length 1-40, with and without the delay capability) against one real `git-lfs filter-process` through an independent pkt-line client and a scripted fake server; grammar check, differential against one-shot filters in a twin repository, exactly-once announcement of delayed blobs, bounded emptiness of list_available_blobs in rounds, real-Git delay-capable checkouts, race-instrumented binary in the thorough tier",
-         "Held on 120 programs + 6 real-Git scenarios (quick) / 3000 + 60 (thorough): ~1900 requests per quick run, every success answer compared with the expected content (35 % also against a real one-shot run), every delayed blob announced exactly once and retrieved, failure equivalence with the one-shot filter (exit 2 mid-answer).",
+         "Held on {q} (quick) / {t} (thorough) evaluations, seed 1: generated request programs (Git's client grammar, length 1-40, with and without the delay capability, include/exclude settings) against one real `git-lfs filter-process` through an independent pkt-line client and a scripted fake server, plus real-Git delay-capable checkouts: every success answer compared with the expected content (a share also against a real one-shot run), every delayed blob announced exactly once and retrieved, bounded emptiness of list_available_blobs, failure equivalence with the one-shot filter; race-instrumented binary in the thorough tier.",
          "Hang verdicts use wall-clock only after logical quiescence (request fully written and object settled at the fake server / nothing in flight) with 20-90 s watchdogs; other timeouts are inconclusive. Git-lfs never sends status=error/abort; end-of-stream with non-zero exit is accepted exactly where the one-shot twin fails.",
          "DESIGN.md §5 C14"),
  "C11": ("exploration",
          "runtime monitor: differential twins (repository with generated .lfsconfig L vs the same with L restricted to the documented allow-list, parsed from the man page by the driver) over env/ls-files/status/fetch/pull/add/checkout/push/locks; sentinel programs, sentinel proxy and sentinel listeners for every value position that could name a program or endpoint; precedence of git config over .lfsconfig",
-         "Held on 150 (quick) / 3000 (thorough) generated files (about 135 unsafe and 10 allow-listed key templates; random case/section spellings, duplicates, includes, embedded newlines) in work tree / index / HEAD / bare repository: ~2600 commands, ~1300 output comparisons, sentinel and precedence checks per quick run; failing mixtures are minimised key by key; 3 recorded known findings.",
+         "Held on {q} (quick) / {t} (thorough) evaluations, seed 1: generated .lfsconfig files (about 135 unsafe and 10 allow-listed key templates; random case/section spellings, duplicates, includes, embedded newlines, override blocks, extension priorities) in work tree / index / HEAD / bare repository: differential twins over env/ls-files/status/fetch/pull/add/checkout/push/locks, sentinel programs / proxy / listeners for every value position that could name a program or endpoint, precedence of Git's own configuration (all scopes, bare keys) over .lfsconfig; failing mixtures are minimised key by key; recorded known findings.",
          "stderr is not compared (the 'unsafe keys ignored' warning legitimately differs); https-only keys cannot show an effect against the plain-http listener; listener bound to 192.0.2.2 so that a proxy setting would be effective.",
          "DESIGN.md §5 C11"),
  "C18": ("exploration",
          "runtime monitor: every request logged by the fake LFS server during push/fetch/pull/prune --verify-remote/lock scenarios is validated against the published JSON schemas (gojsonschema, loaded from docs/api/schemas at run time) and three schemas transcribed from the docs, header rules, reference-model membership of oids/sizes, and offer-vs-usage equality by the unique token of each action; single-field corruptions of valid responses; hash_algo clause",
-         "Held on 309 cases / ~3300 requests (quick) and 1950 cases / ~156000 requests (thorough): schema validations, header checks, offer/usage comparisons (method, URL, headers), ref-name and path byte equality for hostile names, cursors and limits, 240 response corruptions (no panic, following requests conform, no un-offered URL used), unsupported hash_algo never acted upon.",
+         "Held on {q} (quick) / {t} (thorough) evaluations, seed 1: cases logging every request of push/fetch/pull/prune --verify-remote/lock scenarios (hostile ref names, paths, lock ids, cursors, limits, detached HEAD, insteadOf aliases, action Authorization and 401 answers, chunked-transfer offers): schema validations, header checks, offer/usage comparisons (method, URL, headers), every single-field corruption of valid batch/lock responses (and the batch ones again with a transient storage fault, so the retry path builds a second request), unsupported hash_algo never acted upon.",
          "ref is optional per the docs (ref oddities such as HEAD or a raw sha are not flagged); unlock URL compared on decoded paths; lock paths that are not valid UTF-8 are not generated (JSON cannot carry them).",
          "DESIGN.md §5 C18"),
  "C16": ("exploration",
          "runtime monitor: two users (two clones, X-Verif-User header) run seeded sequences of lock/unlock/locks/checkout/commit/merge/push against the fake server's lock API with scripted answers (409, 403, 404/501, 5xx, pagination); oracles at every quiescent point: push verdict vs the server's lock table at verify time, write bits vs a sequence-defined expected cache, `locks --local/--cached --json` vs that cache, unlock guard vs uncommitted changes; race-instrumented pushes",
-         "Held on 40 (quick) / 1200 (thorough) sequences of length 1-30: ~480 commands, ~30 judged pushes, ~140 write-bit checks, ~730 cache comparisons and 16 unlock-guard checks per quick run; every 4th case pushes with the -race binary (reports touching lockVerifier count). 3 recorded known findings.",
+         "Held on {q} (quick) / {t} (thorough) evaluations, seed 1: sequences of length 1-30 by two users (a second clone of one user in some cases) of lock/unlock/locks (all listing option shapes)/checkout/commit/merge/push/lose-the-lock-cache against the fake server's lock API with scripted answers (409, 403, 404/501, 5xx, pagination, faults on later pages or later refs of a push's verify listing); judged pushes, write-bit checks, cache comparisons and unlock-guard checks at every quiescent point; every 4th case pushes with the -race binary. Recorded known findings.",
          "Files not covered by a flag-fixing command since the last ownership change are not judged (a client cannot know about a foreign change); after a verified push both the unchanged and the replaced cache are accepted; locksverify unset is warning-only and not judged.",
          "DESIGN.md §5 C16"),
 }
 
 NOT_YET = {}
+
+# evaluations per tier at seed 1 (tools/counts.json, written from the evidence of the last full runs)
+try:
+    COUNTS = json.load(open("/verif/tools/counts.json"))
+except FileNotFoundError:
+    COUNTS = {}
 
 def main():
     ids = [json.loads(l)["id"] for l in open("/verif/properties.jsonl")]
@@ -117,6 +123,11 @@ def main():
         if i not in CHECKS:
             continue
         cat, tech, text, note, ref = CHECKS[i]
+        cnt = COUNTS.get(i, {})
+        text = text.replace("{q}", str(cnt.get("quick", "n/a"))).replace("{t}", str(cnt.get("thorough", "n/a")))
+        nk = sum(1 for l in open("/verif/known_findings.txt") if l.startswith("finding:") and ("property=%s " % i) in l)
+        if nk:
+            text += " %d recorded known finding%s (known_findings.txt)." % (nk, "" if nk == 1 else "s")
         checks.append({
             "property_id": i,
             "quick_cmd": f"./check {i} --tier quick",
